@@ -8,7 +8,8 @@
 EXTENDS Integers, Sequences, FiniteSets, TLC, Json
 CONSTANTS MaxSecs, MaxLevel, Sim
 
-Titles == << "One", "A & B", "Q \"uote\" 'x'", "T<ag> >", "Caf~E", "C#" >>
+Titles == << "One", "A & B", "Q \"uote\" 'x'", "T<ag> >", "Caf~E", "C#", "# starts with a hash", "### and a longer run" >>
+HashStart == {7, 8}   \* titles that begin with a run of '#' and a blank: text after the opening marker (as a Setext heading the line would itself be an ATX heading)
 HashEnd == {6}        \* titles that end in '#': unambiguous only with closing hashes or as Setext headings
 Bodies == << "plain body\n\n", "a & b < c > \"q\" 'x' &amp; &#10;\n\n", "", "tab\there  two\nline2\n\n", "* item <b>\n* two\n\n", "    code & <pre>\n\n", "form~Ffeed and~Vvertical tab, unit~Useparator\n\n" >>      \* (~F ~V ~U: form feed, vertical tab, 0x1F -- written by the check)
 Pres   == << "", "pre <amble> & \"text\"\n\n", "\n\nNote: this opening paragraph follows two blank lines and looks like a key\n\n" >>
@@ -57,7 +58,7 @@ Next == /\ Len(doc.secs) < MaxSecs
              \E t \in (IF Sim THEN {RandomElement(1 .. Len(Titles))} ELSE {((n + l) % Len(Titles)) + 1}),
                 b \in (IF Sim THEN {RandomElement(1 .. Len(Bodies))} ELSE {((2 * n + l + doc.m) % Len(Bodies)) + 1}),
                 s \in (IF Sim THEN {RandomElement(Styles(l))} ELSE {CHOOSE x \in Styles(l) : x = (IF (n + doc.p) % 3 = 0 /\ l <= 2 THEN "setext" ELSE IF (n + l) % 2 = 0 THEN "atx" ELSE "atxc")}) :
-                doc' = [doc EXCEPT !.secs = Append(@, [lvl |-> l, t |-> t, b |-> b, style |-> IF t \in HashEnd /\ s = "atx" THEN "atxc" ELSE s])]
+                doc' = [doc EXCEPT !.secs = Append(@, [lvl |-> l, t |-> t, b |-> b, style |-> IF t \in HashEnd /\ s = "atx" THEN "atxc" ELSE IF t \in HashStart /\ s = "setext" THEN "atx" ELSE s])]
 \* deep outlines: every level down to 6 with k sections on each level (siblings on the whole path), and saw-tooth shapes at the bottom
 RECURSIVE Stair(_, _, _)
 Stair(l, d, k) == IF l > d THEN <<>> ELSE [j \in 1 .. k |-> l] \o Stair(l + 1, d, k)
